@@ -12,7 +12,12 @@ from vlib.ctx import impl_env
 PROPS = ('C18',)
 # in schedules with read-only nodes a safety record (majority, one leader, common sequence, fallback) is also a C18 record:
 # the read-only nodes influenced the cluster
-_corr, search, replay = R.standard_module('C18', PROPS, {'ro_trace': ('C01', 'C03', 'C04', 'C20')})
+# scenarios with observers: a read-only id in a voter's member set (a C10 record), a commit without a majority of voters
+# (C04), a leader without the committed entries (C03) are C18 records there
+_OBS = ('C01', 'C03', 'C04', 'C10', 'C20')
+_corr, search, replay = R.standard_module('C18', PROPS, {'ro_trace': ('C01', 'C03', 'C04', 'C20'),
+                                                          'scenario:observers_join_after_snapshot_install': _OBS,
+                                                          'scenario:observer_of_snapshot_installed_voter': _OBS})
 
 
 def observer_handshake(ctx):
